@@ -140,7 +140,8 @@ def case_curve(loadcase, fam, name, rep):
             else:
                 ramp = {bounds["move-right-%d" % axes[0]]: t * top[0], bounds["move-right-%d" % axes[1]]: t * top[1]}
             step = fem.Step([body], ramp=ramp, boundaries=bounds)
-            job = fem.CharacteristicCurve([step], bounds[key])
+            use_items = rep % 3 == 1  # reaction forces taken from the items' own results instead of the Newton residual
+            job = fem.CharacteristicCurve([step], bounds[key], items=[body] if use_items else None)
             try:
                 job.evaluate(verbose=False, tol=1e-10)
             except ValueError as exc:
